@@ -480,6 +480,60 @@ func c02EmptyReject(c *Ctx, dec *ssa.Function, T *types.Named, helpers map[*ssa.
 	if n == 0 {
 		c.R.Hold("R-no-empty-reject", T.Obj().Name()+" in "+fname(dec), c.Pos(dec.Pos()), "no decision on emptiness of a non-omitempty member")
 	}
+	// the converse: a member whose ABSENCE the decoder rejects must always be emitted — an `omitempty` on it makes the
+	// encoder leave it out for a legitimate empty value, and the library's own client then refuses the answer
+	for v, key := range extracted {
+		m, known := members[key]
+		if !known || !m.omitempty {
+			continue
+		}
+		tuple := v
+		if ex, ok := v.(*ssa.Extract); ok {
+			tuple = ex.Tuple
+		}
+		if tuple.Referrers() == nil {
+			continue
+		}
+		var okv ssa.Value
+		for _, r := range *tuple.Referrers() {
+			if e2, ok := r.(*ssa.Extract); ok && ir.TypeStr(e2.Type()) == "bool" {
+				okv = e2
+			}
+		}
+		if okv == nil {
+			continue
+		}
+		for _, b := range dec.Blocks {
+			if len(b.Instrs) == 0 {
+				continue
+			}
+			ifi, ok := b.Instrs[len(b.Instrs)-1].(*ssa.If)
+			if !ok {
+				continue
+			}
+			cond, absentSucc := ifi.Cond, 1
+			if u, ok := cond.(*ssa.UnOp); ok && u.Op == token.NOT {
+				cond, absentSucc = u.X, 0
+			}
+			if cond != okv {
+				continue
+			}
+			// does the absent edge lead straight to an error return?
+			rejects := false
+			for blk := range flow.BlocksReachableAvoiding(b.Succs[absentSucc], map[*ssa.BasicBlock]bool{b.Succs[1-absentSucc]: true}) {
+				if r, ok := blk.Instrs[len(blk.Instrs)-1].(*ssa.Return); ok {
+					rs := ir.Results(r)
+					if len(rs) > 0 && ir.TypeStr(rs[len(rs)-1].Type()) == "error" && !ir.IsNilConst(rs[len(rs)-1]) {
+						rejects = true
+					}
+				}
+			}
+			if rejects {
+				c.R.Violate("R-no-empty-reject", T.Obj().Name()+"."+key+" required by "+fname(dec)+" but omitempty", c.Pos(dec.Pos()),
+					sprintf("%s refuses a %s without the member %q, while %s.%s is tagged omitempty: a handler's value with an empty %s is encoded without the member and the client fails the whole call", fname(dec), T.Obj().Name(), key, T.Obj().Name(), m.field, key))
+			}
+		}
+	}
 }
 
 // ---------------------------------------------------------------- R-same-type
